@@ -26,6 +26,10 @@ import (
 const composeTimeout = 160 * time.Millisecond
 const composeHedgeDelay = 30 * time.Millisecond
 
+// a retry policy's max duration and the duration of a "sleeping" outcome: everything else finishes well within the former
+const composeMaxDuration = 45 * time.Millisecond
+const composeSleep = 75 * time.Millisecond
+
 type mapCache struct {
 	mu sync.Mutex
 	m  map[string]int
@@ -103,6 +107,9 @@ func (s *composeSlice) build() {
 			b := retrypolicy.Builder[int]().WithMaxRetries(int(atoi(t[1])))
 			if t[2] == "1" {
 				b.ReturnLastFailure()
+			}
+			if len(t) > 5 && t[5] == "md" {
+				b.WithMaxDuration(composeMaxDuration)
 			}
 			applyConds(t[3], func(e ...error) { b.HandleErrors(e...) }, func(a ...any) { b.HandleErrorTypes(a...) }, func(r int) { b.HandleResult(r) }, func(p func(int, error) bool) { b.HandleIf(p) })
 			applyConds(t[4], func(e ...error) { b.AbortOnErrors(e...) }, func(a ...any) { b.AbortOnErrorTypes(a...) }, func(r int) { b.AbortOnResult(r) }, func(p func(int, error) bool) { b.AbortIf(p) })
@@ -279,6 +286,7 @@ type scriptItem struct {
 	val    int
 	err    error
 	blocks bool
+	sleeps bool
 }
 
 func parseScript(text string) []scriptItem {
@@ -291,12 +299,16 @@ func parseScript(text string) []scriptItem {
 		// the error tree may itself contain commas: the item is `val,<tree>[,B]`
 		val, _ := strconv.Atoi(f[0])
 		rest := it[len(f[0])+1:]
-		blocks := false
+		blocks, sleeps := false, false
 		if strings.HasSuffix(rest, ",B") {
 			blocks = true
 			rest = strings.TrimSuffix(rest, ",B")
 		}
-		out = append(out, scriptItem{val, parseErrTree(rest), blocks})
+		if strings.HasSuffix(rest, ",S") {
+			sleeps = true
+			rest = strings.TrimSuffix(rest, ",S")
+		}
+		out = append(out, scriptItem{val, parseErrTree(rest), blocks, sleeps})
 	}
 	return out
 }
@@ -355,6 +367,9 @@ func (s *composeSlice) run(async bool, ck string, scriptText string, x string) s
 		fnMu.Unlock()
 		if o.blocks {
 			<-exec.Canceled()
+		}
+		if o.sleeps {
+			time.Sleep(composeSleep)
 		}
 		fnMu.Lock()
 		completed++
@@ -476,6 +491,7 @@ func genCompose(r *rand.Rand, n int, tier string, emit func(string) string) {
 		var bulkCaps []int
 		depth := r.Intn(6)
 		hasTimeout, hasHedge := false, false
+		hasMd := false // some retry policy has a max duration: scripts may contain sleeping outcomes, never blocking ones
 		wantHedge := r.Intn(6) == 0
 		for pos := 0; pos < depth; pos++ {
 			kind := r.Intn(7)
@@ -495,7 +511,12 @@ func genCompose(r *rand.Rand, n int, tier string, emit func(string) string) {
 					// conditions that the exhausted script's outcome (0, nil) cannot match
 					m = 2
 				}
-				pols = append(pols, fmt.Sprintf("pol retry %d %d %s %s", m, r.Intn(2), h, a))
+				md := ""
+				if !wantHedge && r.Intn(4) == 0 {
+					md = " md"
+					hasMd = true
+				}
+				pols = append(pols, fmt.Sprintf("pol retry %d %d %s %s%s", m, r.Intn(2), h, a, md))
 			case 1:
 				var ft, frt, ftc, fet, st, stc int
 				ft, ftc = 1, 1
@@ -574,6 +595,7 @@ func genCompose(r *rand.Rand, n int, tier string, emit func(string) string) {
 			var parts []string
 			blockedSeen := false
 			blockedCount := 0
+			sleepCount := 0
 			for i, l := 0, r.Intn(9); i < l; i++ {
 				e := "-"
 				if r.Intn(2) == 0 {
@@ -582,7 +604,12 @@ func genCompose(r *rand.Rand, n int, tier string, emit func(string) string) {
 				it := fmt.Sprintf("%d,%s", r.Intn(3), e)
 				// blocking outcomes must be released by something: an enclosing Timeout, or (hedge accepting any result) a
 				// later attempt — at most maxHedges blocked attempts in the whole script keeps every hedge execution finite
-				if (hasTimeout || (hasHedge && hedgeAny && blockedCount < hedgeMax)) && r.Intn(4) == 0 {
+				if hasMd {
+					if (sleepCount < 1 || (sleepCount < 2 && !hasTimeout)) && r.Intn(5) == 0 {
+						it += ",S"
+						sleepCount++
+					}
+				} else if (hasTimeout || (hasHedge && hedgeAny && blockedCount < hedgeMax)) && r.Intn(4) == 0 {
 					it += ",B"
 					blockedSeen = true
 					blockedCount++
